@@ -129,7 +129,9 @@ Report ==
         ELSE LET where == CHOOSE x \in res[j][2] : TRUE IN
              /\ PrintT(<<"FAIL", k, res[j][1]>>)
              /\ PrintT(<<"INFO", k, "where_" \o res[j][1], where>>)
-             /\ PrintT(<<"INFO", k, "sig_" \o res[j][1], IF res[j][1] \in SiteClauses THEN SigAt(Cases[k], grp, where) ELSE {}>>)
+             \* the point-group class of the offending site, one short line per <<trace, det>> (TLC wraps long lines)
+             /\ \A s \in (IF res[j][1] \in SiteClauses THEN SigAt(Cases[k], grp, where) ELSE {}) :
+                   PrintT(<<"INFO", k, "g_" \o res[j][1] \o "|" \o ToString(s[1]) \o "|" \o ToString(s[2]), s[3]>>)
   /\ PrintT(<<"INFO", k, "order", Cardinality(grp)>>)
   /\ PrintT(<<"INFO", k, "maxstab", MaxStab(Cases[k], grp)>>)
   /\ PrintT(<<"INFO", k, "gap", Gap(Cases[k], grp)>>)
